@@ -65,10 +65,10 @@ pub fn c04(cfg: &Cfg) -> i32 {
         }
         // incidental: ordinary games + goal-rush games (few pieces, rabbits advanced)
         let optg = PlayOpts { max_turns: 60, max_actions: 250, ..PlayOpts::default() };
-        play_family(Family::W1, cfg.n(300, 8000), cfg.seed, w, 20, &optg, &mut mon, sink);
-        play_family(Family::W2, cfg.n(300, 8000), cfg.seed, w, 20, &optg, &mut mon, sink);
-        play_family(Family::W3, cfg.n(100, 2000), cfg.seed, w, 20, &optg, &mut mon, sink);
-        play_family(Family::W7, cfg.n(10, 200), cfg.seed, w, 0, &optg, &mut mon, sink);
+        play_family(Family::W1, cfg.n(2000, 30_000), cfg.seed, w, 20, &optg, &mut mon, sink);
+        play_family(Family::W2, cfg.n(2000, 30_000), cfg.seed, w, 20, &optg, &mut mon, sink);
+        play_family(Family::W3, cfg.n(600, 8000), cfg.seed, w, 20, &optg, &mut mon, sink);
+        play_family(Family::W7, cfg.n(60, 800), cfg.seed, w, 0, &optg, &mut mon, sink);
         sweep(2, &[0, 1, 5], 1, w, cfg.workers, 1, cfg.seed, &mut mon, sink);
         mon.finish(sink);
     });
@@ -132,10 +132,10 @@ pub fn c09(cfg: &Cfg) -> i32 {
                 }
             }
         }
-        play_family(Family::W7, cfg.n(1200, 120_000), cfg.seed, w, 0, &opts, &mut mon, sink);
+        play_family(Family::W7, cfg.n(8000, 400_000), cfg.seed, w, 0, &opts, &mut mon, sink);
         mon.finish(sink);
     });
-    let floors = vec![floor("setup_states_judged", 500_000, 50_000_000), floor("setups_completed", 15_000, 1_500_000), floor("gold_count_vectors_seen_of_971", 971, 971), floor("silver_count_vectors_seen_of_971", 971, 971)];
+    let floors = vec![floor("setup_states_judged", 1_000_000, 50_000_000), floor("setups_completed", 30_000, 1_500_000), floor("gold_count_vectors_seen_of_971", 971, 971), floor("silver_count_vectors_seen_of_971", 971, 971)];
     conclude(cfg, sink, report("setup_states_judged", "W7: scripted placement orders that pass through every one of the 972 per-side count vectors for both colours, plus random placement orders chosen from the engine's own offered lists; every prefix is a state. Offered placements are compared with the remaining complement, every placement with the model's next home square, and the switch to Silver / to the play phase with the statement. distinct_nontrivial = distinct (partial board, number placed).", floors, &["the setup model in harness/src/model.rs states the placement order of the property"]))
 }
 
@@ -144,7 +144,7 @@ pub fn c11(cfg: &Cfg) -> i32 {
     let sink = run_parallel(cfg, |w, sink| {
         let mut rng = Rng::new(cfg.seed, 0x1100 + w as u64);
         let mut st = sym::TwinStats { states: [0; 3], captures: 0, withheld_states: 0, terminals: [0; 3] };
-        let n = cfg.n(1500, 40_000);
+        let n = cfg.n(12_000, 250_000);
         for i in 0..n {
             let (mirror, flip) = [(true, false), (false, true), (true, true)][(i % 3) as usize];
             let fam = i % 10;
@@ -177,7 +177,7 @@ pub fn c11(cfg: &Cfg) -> i32 {
         sink.add("capture_previews_compared_nonempty", st.captures);
         sink.add("states_with_withheld_actions", st.withheld_states);
     });
-    let floors = vec![floor("twin_states", 300_000, 3_000_000), floor("twin_states_mirror", 50_000, 500_000), floor("twin_states_colour_swap_rank_flip", 50_000, 500_000), floor("twin_states_both", 50_000, 500_000), floor("capture_previews_compared_nonempty", 3000, 30_000), floor("states_with_withheld_actions", 10_000, 100_000), floor("terminal_results_mirror", 100, 1000), floor("terminal_results_colour_swap_rank_flip", 100, 1000)];
+    let floors = vec![floor("twin_states", 800_000, 8_000_000), floor("twin_states_mirror", 200_000, 2_000_000), floor("twin_states_colour_swap_rank_flip", 200_000, 2_000_000), floor("twin_states_both", 200_000, 2_000_000), floor("capture_previews_compared_nonempty", 3000, 30_000), floor("states_with_withheld_actions", 10_000, 100_000), floor("terminal_results_mirror", 100, 1000), floor("terminal_results_colour_swap_rank_flip", 100, 1000)];
     conclude(cfg, sink, report("twin_states", "W1/W2/W3/W5 games played in lock-step with their image under file mirror, colour swap + rank flip, or both (round robin); at every state the image of the offered set, of the rule-only set, of the result and of the capture preview of the chosen action must equal the twin's, and the boards must stay images. Order of lists, hashes and move numbers are not compared. distinct_nontrivial = distinct states with withheld actions plus distinct (state, capturing action).", floors, &["no oracle other than the engine itself (metamorphic)"]))
 }
 
@@ -230,7 +230,7 @@ pub fn c15(cfg: &Cfg) -> i32 {
     let mut sink = run_mix(cfg, &mix, &|| Box::new(C15::default()));
     // (b) string fuzz, monitor profile
     sink.merge(c15_strings(cfg));
-    let mut rep = report("strings_parsed", "(a) every setup and play state of W1/W2/W3/W7 games is printed, compared with the harness' independent rendering, re-parsed and compared (board, side, move number, turn-start status, identical reprint, and the transposition hash for turn-start states); (b) W9: fixed hostile inputs plus structured mutations of valid diagrams (header digits incl. 20-40 digit and non-ASCII numbers, row count 0..40, row width 0..40, inserted/deleted/doubled bars, shuffled lines, multi-byte characters) and random Unicode; only unwinding is judged for malformed text. Run in the monitor profile (overflow checks) and again in a plain release child. distinct_nontrivial = distinct fuzz strings plus distinct (board, move number, side) round-tripped.", vec![floor("strings_parsed", 1_000_000, 100_000_000), floor("play_states_round_tripped", 100_000, 1_000_000), floor("setup_states_round_tripped", 10_000, 100_000), floor("turn_start_hashes_compared", 30_000, 300_000), floor("parsed_ok", 100_000, 1_000_000), floor("class_header", 100_000, 1_000_000), floor("class_row_count", 100_000, 1_000_000), floor("class_row_width", 100_000, 1_000_000)], &["the harness' printer (model.rs to_text) is the independent rendering of the diagram format"]);
+    let mut rep = report("strings_parsed", "(a) every setup and play state of W1/W2/W3/W7 games is printed, compared with the harness' independent rendering, re-parsed and compared (board, side, move number, turn-start status, identical reprint, and the transposition hash for turn-start states); (b) W9: fixed hostile inputs plus structured mutations of valid diagrams (header digits incl. 20-40 digit and non-ASCII numbers, row count 0..40, row width 0..40, inserted/deleted/doubled bars, shuffled lines, multi-byte characters) and random Unicode; only unwinding is judged for malformed text. Run in the monitor profile (overflow checks) and again in a plain release child. distinct_nontrivial = distinct fuzz strings plus distinct (board, move number, side) round-tripped.", vec![floor("strings_parsed", 1_000_000, 100_000_000), floor("play_states_round_tripped", 100_000, 1_000_000), floor("setup_states_round_tripped", 10_000, 100_000), floor("turn_start_hashes_compared", 30_000, 300_000), floor("parsed_ok", 100_000, 1_000_000), floor("class_header", 50_000, 1_000_000), floor("class_row_count", 50_000, 1_000_000), floor("class_row_width", 50_000, 1_000_000)], &["the harness' printer (model.rs to_text) is the independent rendering of the diagram format"]);
     match run_plain_child(cfg, "C15-strings") {
         Ok(child) => {
             absorb_child(&mut sink, &child, "C15");
@@ -250,7 +250,7 @@ pub fn c15_strings_child(cfg: &Cfg) -> i32 {
 // ---------------------------------------------------------------------------------------------
 fn c16_strings(cfg: &Cfg) -> Sink {
     run_parallel(cfg, |w, sink| {
-        strings::run_w10(cfg.n(60_000, 6_000_000), cfg.seed, w, cfg.workers, sink);
+        strings::run_w10(cfg.n(250_000, 12_000_000), cfg.seed, w, cfg.workers, sink);
     })
 }
 pub fn c16(cfg: &Cfg) -> i32 {
